@@ -531,12 +531,17 @@ def observe(text: str):
     from pest import Parser
     from pest.grammar.exceptions import PestGrammarError
 
+    from .limits import DidNotTerminate, time_limit
+
     try:
-        p = Parser.from_grammar(text, optimizer=None)
+        with time_limit(10):
+            p = Parser.from_grammar(text, optimizer=None)
     except PestGrammarError as e:
         return "reject", str(getattr(e, "message", e))[:80]
     except RecursionError:
         return "unsupported", "recursion"
+    except DidNotTerminate as e:
+        return "raised", f"from_grammar {e}"
     except Exception as e:  # noqa: BLE001
         return "raised", f"{type(e).__name__}: {e}"[:120]
     builtin_names = set(Parser.BUILTIN)
